@@ -150,6 +150,10 @@ func c15RawRequest(w *world.World, c c15Case, sid string) *envoy.CheckRequest {
 		h.Headers["cookie"] = name
 	case "big":
 		h.Headers["cookie"] = name + "=" + strings.Repeat("A", 65536)
+	case "quoted-session":
+		h.Headers["cookie"] = name + "=\"" + sid + "\""
+	case "lone-quote-session":
+		h.Headers["cookie"] = name + "=\""
 	default:
 		h.Headers["cookie"] = c.Cookie
 	}
@@ -481,7 +485,8 @@ func c15Cases(tier string) []c15Case {
 			for _, sh := range []string{"nil-attributes", "nil-request", "nil-http", "nil-headers"} {
 				cs = append(cs, c15Case{Group: "request", Level: lvl, Pre: pre, Shape: sh, Path: "/", Cookie: "session"})
 			}
-			cookies := []string{"absent", "", ";", "=", "a=b=c", "name-only", "big", "\x00\x01\x7f=\xff", "session-twice", "empty-value", "session"}
+			cookies := []string{"absent", "", ";", "=", "a=b=c", "name-only", "big", "\x00\x01\x7f=\xff", "session-twice", "empty-value", "session",
+				`a="`, `"`, `a=""`, `a="b`, `a=b"`, `"="`, "quoted-session", "lone-quote-session", " ; ;; =;= ", "a=\"; b=\"\"; c='", "a=%zz; b=%", strings.Repeat("a=b; ", 2000)}
 			hosts := []string{"{empty}", "app.test", "other.test", "[::1]:443"}
 			paths := []string{"", "/", "?", "#", "/callback?%zz", "/callback?state=&code=", "/callback?state=s", "/callback?" + strings.Repeat("&", 8192),
 				"{callback}", "/logout", "/logout?x=%zz", "/callback", "/callback#frag?code=a&state=b", "/public/x"}
